@@ -3,7 +3,12 @@ package checks
 import (
 	"context"
 	"fmt"
+	"github.com/bartossh/Computantis/src/gossip"
+	"github.com/bartossh/Computantis/src/protobufcompiled"
+	"github.com/bartossh/Computantis/src/transaction"
 	"strings"
+	"time"
+	"verifharness/svc"
 
 	"github.com/bartossh/Computantis/src/accountant"
 	"github.com/bartossh/Computantis/src/spice"
@@ -132,5 +137,107 @@ func c10Genesis(w *core.WorkerCtx) {
 			}
 		}
 		world.CloseNode(n)
+	}
+}
+
+// c10GossipPath: the sealing rules on the way a vertex really takes in to a node: through the gossip service (wire
+// vertex, the service's own mapping, the ledger). A vertex that arrives before its parent is parked; right after it a
+// forbidden vertex on known parents is refused; then the parent arrives and the orphan buffer is replayed. The ledger
+// must hold the parked vertex and nothing forbidden.
+func c10GossipPath(w *core.WorkerCtx) {
+	r := w.R
+	rng := core.Rand(w.Seed, "C10gossip", w.Batch)
+	rig, err := svc.New(4, 60, 2048)
+	if err != nil {
+		r.Inconc("cannot build the node: " + err.Error())
+		return
+	}
+	defer rig.Close()
+	ctx := context.Background()
+	u := rig.Users
+	send := func(v *accountant.Vertex) error {
+		rig.Flash.RemoveAddress(string(v.Hash[:]))
+		_, err := rig.Gossip.GossipVrx(ctx, &protobufcompiled.VrxMsgGossip{Vertex: gossip.VerifVertexToProtoVertex(v)})
+		return err
+	}
+	scan := func(what string) {
+		s, err := ledger.TakeSnap(rig.Book)
+		if err != nil {
+			return
+		}
+		for h, l := range s.Live {
+			v := &l.V
+			if h == rig.Genesis.Hash {
+				continue
+			}
+			t := &v.Transaction
+			switch {
+			case t.IssuerAddress == v.SignerPublicAddress:
+				r.Violate("C10", "present/self-sealed/gossip-service", fmt.Sprintf("%s: the ledger holds vertex %s whose transaction was issued by its own sealer", what, ledger.Hex(h)), nil)
+			case t.IssuerAddress == rig.Genesis.Transaction.IssuerAddress:
+				r.Violate("C10", "present/genesis-wallet-spends/gossip-service", fmt.Sprintf("%s: the ledger holds vertex %s issued by the genesis wallet", what, ledger.Hex(h)), nil)
+			case len(t.Data) == 0 && t.Spice.Currency == 0 && t.Spice.SupplementaryCurrency == 0:
+				r.Violate("C10", "present/empty-transaction/gossip-service", fmt.Sprintf("%s: the ledger holds vertex %s with neither data nor spice", what, ledger.Hex(h)), nil)
+			}
+		}
+		r.Eval(1)
+	}
+	rounds := w.Pick(24, 120)
+	for round := 0; round < rounds; round++ {
+		s, err := ledger.TakeSnap(rig.Book)
+		if err != nil {
+			break
+		}
+		var tip ledger.H
+		var wgt uint64
+		for h := range s.Leaves {
+			if v, ok := s.Vertex(h); ok && v.Weight >= wgt {
+				tip, wgt = h, v.Weight
+			}
+		}
+		pt := ledger.ForgeTrx(u[0], u[1].Addr, fmt.Sprintf("parent %d", round), []byte("parent"), spice.Melange{}, time.Now().Add(-time.Minute))
+		parent := ledger.ForgeVertex(rig.PeerAct[0], pt, tip, tip, wgt+1, time.Now().Add(-time.Second))
+		ot := ledger.ForgeTrx(u[0], u[2].Addr, fmt.Sprintf("orphan %d", round), nil, spice.Melange{SupplementaryCurrency: uint64(1 + rng.Intn(9))}, time.Now().Add(-time.Minute))
+		orphan := ledger.ForgeVertex(rig.PeerAct[1], ot, parent.Hash, parent.Hash, wgt+2, time.Now().Add(-time.Second))
+		// the forbidden vertex, on known parents
+		var ft transaction.Transaction
+		sealer := rig.PeerAct[round%2]
+		rule := []string{"self-sealed", "empty-transaction", "genesis-wallet-spends", "empty-transaction-empty-slice"}[round%4]
+		switch rule {
+		case "self-sealed":
+			ft = ledger.ForgeTrx(sealer, u[1].Addr, fmt.Sprintf("forbidden %d", round), []byte("self sealed"), spice.Melange{}, time.Now().Add(-time.Minute))
+		case "empty-transaction":
+			ft = ledger.ForgeTrx(u[1], u[2].Addr, fmt.Sprintf("forbidden %d", round), nil, spice.Melange{}, time.Now().Add(-time.Minute))
+		case "empty-transaction-empty-slice":
+			ft = ledger.ForgeTrx(u[1], u[2].Addr, fmt.Sprintf("forbidden %d", round), []byte{}, spice.Melange{}, time.Now().Add(-time.Minute))
+		default:
+			ft = ledger.ForgeTrx(rig.Node, u[2].Addr, fmt.Sprintf("forbidden %d", round), []byte("by the node's own wallet"), spice.Melange{}, time.Now().Add(-time.Minute))
+			rule = "issued-by-the-receiving-node"
+		}
+		forbidden := ledger.ForgeVertex(sealer, ft, tip, tip, wgt+1, time.Now().Add(-time.Second))
+		w.Mark("c10 gossip path round %d rule %s", round, rule)
+		send(&orphan)
+		ferr := send(&forbidden)
+		scan("after the forbidden vertex (" + rule + ")")
+		send(&parent)
+		for k := 0; k < 4; k++ {
+			rig.Book.VerifRetryOne(ctx)
+		}
+		scan("after the replay of the orphan buffer (" + rule + ")")
+		held := false
+		for k := 0; k < 100 && !held; k++ {
+			if _, err := rig.Book.ReadVertex(ctx, orphan.Hash); err == nil {
+				held = true
+			} else {
+				rig.Book.VerifRetryOne(ctx)
+				time.Sleep(2 * time.Millisecond)
+			}
+		}
+		r.Eval(1)
+		r.Count("c10_gossip_path_rounds", 1)
+		r.Nontriv(fmt.Sprintf("gossip-service/%s/refused=%v/orphan-admitted=%v", rule, ferr != nil, held))
+		if !held {
+			r.Violate("C10", "parked-vertex-lost/gossip-service", fmt.Sprintf("round %d: a valid vertex that arrived before its parent, followed by a refused %s vertex, was never admitted after its parent arrived", round, rule), nil)
+		}
 	}
 }
